@@ -282,7 +282,7 @@ class Parser:
                    ('struct', [seg], [(field, e)])      T { a: e, b }  (not in condition / scrutinee position)
                    ('range', lo|None, hi|None, inclusive)
                    ('tuple', [e]) ('array', [e]) ('index', e, i) ('return', e|None)
-      statements   ('let', pat, type_text|None, e|None, mutable) ('expr', e) ('assign', lhs, op, rhs)
+      statements   ('let', pat, type_text|None, e|None, mutable) ('expr', e) ('assign', lhs, op, rhs) ('use', [seg], alias)
                    ('for', pat, iter, block)
       patterns     ('pwild',) ('pid', name) ('plit', e) ('ptuple', [p]) ('ppath', [seg])
                    ('pts', [seg], [p])                  T::V(p, ..)
@@ -607,7 +607,17 @@ class Parser:
                 body = self.block()
                 stmts.append(("for", pat, it, body))
                 continue
-            if self.at("while") or self.at("loop") or self.at("unsafe") or self.at("fn") or self.at("use") \
+            if self.at("use"):
+                # `use Path as Alias;` / `use Path;` inside a body: recorded as a statement, the translators resolve the alias
+                self.i += 1
+                segs = self.path_segs()
+                alias = segs[-1]
+                if self.eat("as"):
+                    alias = self.ident()
+                self.expect(";")
+                stmts.append(("use", segs, alias))
+                continue
+            if self.at("while") or self.at("loop") or self.at("unsafe") or self.at("fn") \
                     or self.at("struct") or self.at("enum") or self.at("impl") or self.at("const") or self.at("static"):
                 self.err("`%s` inside a function body is outside the translated subset" % self.peek().text)
             e = self.expr()
@@ -849,6 +859,44 @@ class File:
         if not variants or len({v[0] for v in variants}) != len(variants):
             self.err(t[i].line, "enum %s: no or duplicate variants" % name)
         return variants, t[i].line
+
+    # -- struct Name { field: T, .. }   /   struct Name(T, ..);
+    def struct(self, name):
+        """([(field | None, type text)], line)"""
+        t = self.toks
+        hits = [i for i in self._top_level() if t[i].text == "struct" and i + 2 < len(t) and t[i + 1].text == name and t[i + 2].text in ("{", "(")]
+        i = self._one(hits, "`struct %s`" % name)
+        end = _skip_group(t, i + 2, self.path)
+        p = Parser(t, self.path, i + 3, end - 1)
+        named = t[i + 2].text == "{"
+        fields = []
+        while p.peek().kind != "eof":
+            p.eat("pub")
+            if p.at("("):            # pub(crate)
+                p.i = _skip_group(t, p.i, self.path)
+            if named:
+                f = p.ident()
+                p.expect(":")
+                fields.append((f, p.type_text(stop=(",",))))
+            else:
+                fields.append((None, p.type_text(stop=(",",))))
+            if not p.eat(","):
+                break
+        if p.peek().kind != "eof":
+            p.err("unrecognised text in struct %s at `%s`" % (name, p.peek().text))
+        return fields, t[i].line
+
+    def trait_range(self, name):
+        """token range of the body of `trait <name> [: bounds] {`"""
+        t = self.toks
+        hits = []
+        for i in self._top_level():
+            if t[i].text == "trait" and i + 1 < len(t) and t[i + 1].text == name:
+                j = i + 2
+                while j < len(t) and t[j].text != "{":
+                    j += 1
+                hits.append((j + 1, _skip_group(t, j, self.path) - 1))
+        return self._one(hits, "`trait %s {`" % name)
 
     # -- const NAME: T = expr;
     def const(self, name, lo=0, hi=None):
